@@ -175,6 +175,9 @@ def main():
         for tr in ([], [[]], [['a']]):
             for ti in range(2):
                 cases.append(make_case(ck, tu, tr, ti, rng.randint(0, 2), 'empty-train'))
+        # blank lines inside / around the training text (two boundary markers in a row are a bigram like any other)
+        for tr in ([['a', 'b'], [], ['b', 'a']], [[], ['a', 'b', 'a']], [['b', 'a'], ['a'], []]):
+            cases.append(make_case(ck, tu, tr, rng.randint(0, 1), rng.randint(0, 2), 'blank-lines-in-train'))
     for alpha in ('ascii1', 'ipa', 'marker'):
         for tu in gens.degenerate_texts(gens.ALPHABETS[alpha]):
             for ti in range(2):
